@@ -108,6 +108,11 @@ type Series struct {
 	// LastStaleAmbig: the newest sample is a staleness marker whose stored type (float or
 	// histogram marker) is not determined; a marker re-sent at that timestamp is not judged.
 	LastStaleAmbig bool
+	// EverT (valid if HasEver): the highest timestamp ever committed in-order for the series.
+	// Neither deletes nor truncations that wrote no block remove such a sample from the WAL, so
+	// a restart that lowers the bound can bring it back as the series' newest in-order sample.
+	HasEver bool
+	EverT   int64
 	// Uncertain: after a restart the implementation may or may not hold an open head
 	// chunk for the series; appends at or below LastT are then not judged.
 	Uncertain bool
@@ -359,6 +364,9 @@ func (m *Model) Commit(a *Appender) {
 			sv := p.V
 			s.store(p.T, sv, true)
 			s.HasLast, s.LastT, s.Uncertain = true, p.T, false
+			if !s.HasEver || p.T > s.EverT {
+				s.HasEver, s.EverT = true, p.T
+			}
 			if p.V.Kind == KStale {
 				s.LastStale = true // type of the series is kept
 				// The marker is stored as a float or as a histogram marker depending on the type
@@ -480,7 +488,14 @@ func (m *Model) Restarted(headInit bool, headMaxT, blocksMaxT int64) {
 			}
 		}
 	}
-	pseudo := false // a series' newest in-order sample is one of the uncertain out-of-order ones
+	resurrected := false
+	for _, s := range m.Series {
+		if s.HasEver && s.EverT >= m.Head.MinValid && (!s.HasLast || s.LastT < s.EverT) {
+			s.HasLast, s.LastT, s.Uncertain = true, s.EverT, true
+			resurrected = true
+		}
+	}
+	pseudo := resurrected // a series' newest in-order sample is an uncertain one
 	for _, s := range m.Series {
 		for t, p := range s.Pts {
 			if (p.WasOOO || p.OOOHead) && t >= m.Head.MinValid && s.HasLast && t == s.LastT && s.Uncertain {
